@@ -53,7 +53,7 @@ func haRunCases(c *kit.Ctx, cases []*haCase, each func(*haResult)) {
 	go func() {
 		for i, cs := range cases {
 			cs.Ord = i
-			if c.Violations() > 20 {
+			if c.Violations() > 20 && os.Getenv("VERIF_HA_NOLIMIT") == "" {
 				break
 			}
 			jobs <- cs
@@ -117,6 +117,7 @@ func (a *haAgg) common(res *haResult) {
 		}
 	} else {
 		c.Count("schedules_without_tail_commit", 1)
+		fmt.Printf("HA-NOTAIL case=%s/%d sync_round=%d sync_pos=%v virtual_end=%v steps=%d rounds=%d\n", c.Prop, cs.Ord, res.SyncRound, res.SyncPos, res.VirtualEnd, res.Steps, st.Rounds)
 	}
 	if st.MinSlack >= 0 {
 		// smallest observed margin of a certificate over the cert threshold (kept as the negated max of negatives)
@@ -271,6 +272,9 @@ func haAddCrashes(r *kit.Rand, cs *haCase, k int, double bool) {
 
 func haCasesC01(c *kit.Ctx) []*haCase {
 	n := c.N(44, 1400)
+	if c.Lane == "race" {
+		n = c.N(24, 140) // race lane: a 10% subsample (the detector slows everything down ~5-10x)
+	}
 	var cases []*haCase
 	for i := 0; i < n; i++ {
 		cases = append(cases, haGenCase(c, 1, i, "safety"))
@@ -402,13 +406,24 @@ func haCasesC03(c *kit.Ctx) []*haCase {
 	var cases []*haCase
 	for i := 0; i < n; i++ {
 		var cs *haCase
-		if i%3 == 0 {
+		switch {
+		case i%3 == 0:
 			cs = haGenCase(c, 4, i, "safety")
 			cs.Adv, cs.AdvPct, cs.AdvAccts = "echo", 20, 1+i%3
 			cs.Net = []string{"S3", "mix", "S4"}[(i/3)%3]
 			cs.FlipPm = 800
 			cs.Crashes, cs.QCrashPm = nil, 0
-		} else {
+		case i%3 == 1 && (i/3)%2 == 0:
+			// focused: the cert threshold is crossed only with the weight of an equivocator (one honest node is
+			// down for the whole prefix, the adversary sends every node a decoy vote and the real vote)
+			cs = haGenCase(c, 4, i, "safety")
+			cs.Nodes = []int{5, 7}[(i/6)%2]
+			cs.Stake = "equal"
+			cs.Adv, cs.AdvPct, cs.AdvAccts = "pairs", 20, 1+(i/6)%3
+			cs.Net, cs.DelayMaxMs, cs.DropPm, cs.DupPm = "S1", []int{0, 30}[(i/12)%2], 0, 0
+			cs.QCrashPm = 0
+			cs.Crashes = []haCrashPlan{{Node: i % cs.Nodes, Hook: "quiescent", Nth: 1, FromRound: 1, DownMs: 100000000}}
+		default:
 			cs = haGenCase(c, 4, i, "safety")
 		}
 		cases = append(cases, cs)
@@ -441,6 +456,7 @@ func TestVerifHAC03(t *testing.T) {
 	c.Sample(map[string]any{"certificate_shapes(votes/pairs/period)": sh})
 	c.Require("certificates_checked", 100)
 	c.Require("commits_by_digest_only", 1)
+	c.Require("certificates_with_equivocation_pairs", 3)
 	agg.finish()
 }
 
@@ -545,8 +561,10 @@ func TestVerifHADebug(t *testing.T) {
 	}
 	cs := cases[idx]
 	cs.Ord = idx
+	t0 := time.Now()
 	fmt.Printf("case: %+v\n", *cs)
 	res := haExec(c, cs)
+	fmt.Printf("wall: %v\n", time.Since(t0))
 	tr := res.Trace
 	if os.Getenv("VERIF_HA_TRACE") != "" {
 		for _, l := range tr {
